@@ -1030,7 +1030,9 @@ def parse_body_arguments(
     """
     if config is None:
         config = _DEFAULT_PARSE_BODY_CONFIG
-    if content_type.startswith("application/x-www-form-urlencoded"):
+    # Media types and parameter names are case-insensitive (RFC 9110 8.3.1).
+    media_type = content_type.lower()
+    if media_type.startswith("application/x-www-form-urlencoded"):
         if headers and "Content-Encoding" in headers:
             raise HTTPInputError(
                 "Unsupported Content-Encoding: %s" % headers["Content-Encoding"]
@@ -1043,19 +1045,19 @@ def parse_body_arguments(
         for name, values in uri_arguments.items():
             if values:
                 arguments.setdefault(name, []).extend(values)
-    elif content_type.startswith("multipart/form-data"):
+    elif media_type.startswith("multipart/form-data"):
         if headers and "Content-Encoding" in headers:
             raise HTTPInputError(
                 "Unsupported Content-Encoding: %s" % headers["Content-Encoding"]
             )
         try:
             fields = content_type.split(";")
-            if fields[0].strip() != "multipart/form-data":
+            if fields[0].strip().lower() != "multipart/form-data":
                 # This catches "Content-Type: multipart/form-dataxyz"
                 raise HTTPInputError("Invalid content type")
             for field in fields:
                 k, sep, v = field.strip().partition("=")
-                if k == "boundary" and v:
+                if k.lower() == "boundary" and v:
                     parse_multipart_form_data(
                         utf8(v), body, arguments, files, config=config.multipart
                     )
@@ -1113,7 +1115,7 @@ def parse_multipart_form_data(
         headers = HTTPHeaders.parse(part[:eoh].decode("utf-8"), _chars_are_bytes=False)
         disp_header = headers.get("Content-Disposition", "")
         disposition, disp_params = _parse_header(disp_header)
-        if disposition != "form-data" or not part.endswith(b"\r\n"):
+        if disposition.lower() != "form-data" or not part.endswith(b"\r\n"):
             raise HTTPInputError("Invalid multipart/form-data")
         value = part[eoh + 4 : -2]
         if not disp_params.get("name"):
